@@ -336,7 +336,7 @@ func TestEngine(t *testing.T) {
 		return
 	}
 	r := hx.Rand(9)
-	for id := range hx.Cases(1200, 30000) {
+	for id := range hx.Cases(3000, 40000) {
 		runCase(t, tr, id, r, nil)
 	}
 }
